@@ -2731,7 +2731,9 @@ class Partitions(Expr):
         from dask_expr import SetIndexBlockwise
 
         if isinstance(self.frame, Blockwise) and not isinstance(
-            self.frame, (BlockwiseIO, Fused, SetIndexBlockwise)
+            # MapOverlap needs the neighbouring partitions until it is lowered
+            self.frame,
+            (BlockwiseIO, Fused, SetIndexBlockwise, MapOverlap),
         ):
             operands = [
                 (
